@@ -14,7 +14,7 @@
 //! child (with bucket), yield to parent (plain, with bucket, with proof), verify parent, next-call assertion,
 //! bucket assertion.
 //!
-//! Phase 1 (decides): the full history tree (no de-duplication) to depth 5 (quick) / 7 (thorough), with prefix
+//! Phase 1 (decides): the full history tree (no de-duplication) to depth 5 (quick) / 6 (thorough; 7 for V1 manifests), with prefix
 //! pruning (a prefix the real validator rejects at an instruction is not extended).
 //! Phase 2 (reaches deeper): breadth-first search with de-duplication on a fingerprint of the *real* interpreter's
 //! state (reconstructed from the events it sends to a visitor) to depth 7 / 10 under state and wall caps.
@@ -702,11 +702,13 @@ pub fn run(ctx: Ctx) -> ! {
         ctx.finish(Level::ModelChecking, "replay", 0, false, Map::new(), &[]);
     }
 
-    let depth1 = ctx.pick(5usize, 7usize);
+    let depth1_default = std::env::var("MC_TX_C36_DEPTH1").ok().and_then(|x| x.parse().ok()).unwrap_or(ctx.pick(5usize, 6usize));
     let mut cov = Map::new();
     let st = TreeStats::default();
     let mut per_kind = vec![];
     for kind in KINDS {
+        // thorough: one level deeper for plain V1 transaction manifests (the other kinds' trees are 1.4-4x larger)
+        let depth1 = if !ctx.quick() && kind == Kind::V1 { depth1_default + 1 } else { depth1_default };
         let s0 = (st.states.load(Ordering::Relaxed), st.transitions.load(Ordering::Relaxed));
         // the root: empty manifest
         {
@@ -733,12 +735,12 @@ pub fn run(ctx: Ctx) -> ! {
             dfs(kind, &mut o, model, depth1, l, &st, None);
         });
         let s1 = (st.states.load(Ordering::Relaxed), st.transitions.load(Ordering::Relaxed));
-        per_kind.push(json!({"kind": kind.name(), "accepted_prefixes": s1.0 - s0.0, "transitions": s1.1 - s0.1}));
+        per_kind.push(json!({"kind": kind.name(), "max_depth": depth1, "accepted_prefixes": s1.0 - s0.0, "transitions": s1.1 - s0.1}));
         eprintln!("[C36] phase 1 {} done at {:.1}s: {} states {} transitions", kind.name(), ctx.elapsed_s(), s1.0 - s0.0, s1.1 - s0.1);
     }
     let p1_states = st.states.load(Ordering::Relaxed);
     let p1_transitions = st.transitions.load(Ordering::Relaxed);
-    cov.insert("phase1_full_tree".into(), json!({"max_depth": depth1, "states_are": "distinct accepted histories (no de-duplication)", "per_kind": per_kind, "rejected_leaves": st.leaves_rejected.load(Ordering::Relaxed)}));
+    cov.insert("phase1_full_tree".into(), json!({"max_depth": depth1_default, "states_are": "distinct accepted histories (no de-duplication)", "per_kind": per_kind, "rejected_leaves": st.leaves_rejected.load(Ordering::Relaxed)}));
 
     // phase 2
     let depth2 = ctx.pick(7usize, 10usize);
@@ -758,9 +760,9 @@ pub fn run(ctx: Ctx) -> ! {
     cov.insert("states".into(), json!(p1_states + total.states));
     cov.insert("transitions".into(), json!(p1_transitions + total.transitions));
     cov.insert("traces_validated_against_impl".into(), json!(p1_transitions + total.transitions));
-    cov.insert("max_depth".into(), json!(depth2.max(depth1)));
+    cov.insert("max_depth".into(), json!(depth2.max(depth1_default + 1)));
     cov.insert("alphabet_max".into(), json!(st.alphabet_max.load(Ordering::Relaxed)));
-    let exhaustive_note = format!("phase 1 exhaustive to depth {depth1}; phase 2 {} to depth {}", if total.capped { "capped" } else { "exhaustive (modulo fingerprint)" }, total.depth_completed);
+    let exhaustive_note = format!("phase 1 exhaustive to depth {depth1_default} (V1: +1 in thorough); phase 2 {} to depth {}", if total.capped { "capped" } else { "exhaustive (modulo fingerprint)" }, total.depth_completed);
     ctx.note(exhaustive_note);
     ctx.finish(
         Level::ModelChecking,
